@@ -448,3 +448,25 @@ package bt
 //@ func bt.(*Input).readFrom
 //@   bytes token
 //@   ensures[C01.input_read] (=> (and (= err nil) (not extended)) (and (not (nil? (. i UnlockingScript))) (= (len (. i previousTxID)) 32) (spec.vi_ok (len (. i UnlockingScript)) (- r0 (+ 40 (len (. i UnlockingScript))))) (= (old (rem r)) (bcat (spec.in_wire i (- r0 (+ 40 (len (. i UnlockingScript))))) (rem r)))))
+//@ func bt.(*Output).ReadFrom
+//@   ensures[C01.output_read_canon] (=> (= err nil) (and (= (blen (old (rem r))) (+ r0 (blen (rem r)))) (>= r0 (blen (spec.out_bytes o))) (=> (= r0 (blen (spec.out_bytes o))) (= (old (rem r)) (bcat (spec.out_bytes o) (rem r))))))
+//@ func bt.(*Input).readFrom
+//@   ensures[C01.input_read_canon] (=> (= err nil) (and (not (nil? (. i UnlockingScript))) (= (len (. i previousTxID)) 32) (=> extended (not (nil? (. i PreviousTxScript)))) (= (blen (old (rem r))) (+ r0 (blen (rem r)))) (>= r0 (blen (spec.in_canon i extended))) (=> (= r0 (blen (spec.in_canon i extended))) (= (old (rem r)) (bcat (spec.in_canon i extended) (rem r))))))
+//@ func bt.(*Tx).ReadFrom
+//@   bytes token
+//@   opt closed-heaps 1
+//@   ensures[C01.tx_read_nonnil] (=> (= err nil) (and (spec.inputs_nonnil tx) (spec.out_scripts_nonnil tx)))
+//@   ensures[C01.tx_read_count] (=> (= err nil) (= (blen (old (rem r))) (+ r0 (blen (rem r)))))
+//@   lemma (=> (= err nil) (and (>= r0 (blen (spec.tx_bytes tx extended))) (=> (= r0 (blen (spec.tx_bytes tx extended))) (= (old (rem r)) (bcat (spec.tx_bytes tx extended) (rem r))))))
+//@   ensures[C01.tx_read_canon] (=> (= err nil) (or (and (>= r0 (blen (spec.tx_bytes tx false))) (=> (= r0 (blen (spec.tx_bytes tx false))) (= (old (rem r)) (bcat (spec.tx_bytes tx false) (rem r))))) (and (>= r0 (blen (spec.tx_bytes tx true))) (=> (= r0 (blen (spec.tx_bytes tx true))) (= (old (rem r)) (bcat (spec.tx_bytes tx true) (rem r)))))))
+//@   loop 0 invariant (and (= (len (. tx Inputs)) i) (<= i inputCount) (= (len (. tx Outputs)) 0) (=> (and (= inputCount 0) (not extended)) (> outputCount 0)))
+//@   loop 0 invariant (spec.inputs_nonnil tx)
+//@   loop 0 invariant (= (blen (old (rem r))) (+ bytesRead (blen (rem r))))
+//@   loop 0 invariant (>= bytesRead (blen (spec.tx_pre_in tx extended inputCount outputCount i)))
+//@   loop 0 invariant (=> (= bytesRead (blen (spec.tx_pre_in tx extended inputCount outputCount i))) (= (old (rem r)) (bcat (spec.tx_pre_in tx extended inputCount outputCount i) (rem r))))
+//@   loop 1 invariant (and (= (len (. tx Outputs)) i) (<= i outputCount) (= (len (. tx Inputs)) inputCount))
+//@   loop 1 invariant (spec.inputs_nonnil tx)
+//@   loop 1 invariant (spec.out_scripts_nonnil tx)
+//@   loop 1 invariant (= (blen (old (rem r))) (+ bytesRead (blen (rem r))))
+//@   loop 1 invariant (>= bytesRead (blen (spec.tx_pre_out tx extended inputCount outputCount i)))
+//@   loop 1 invariant (=> (= bytesRead (blen (spec.tx_pre_out tx extended inputCount outputCount i))) (= (old (rem r)) (bcat (spec.tx_pre_out tx extended inputCount outputCount i) (rem r))))
